@@ -126,6 +126,57 @@ def apply_history(rng, t, step):
     raise ValueError(step)
 
 
+DERIVE = ["sort_order:sample", "sort_order:observation", "sort:sample", "sort:observation", "transpose",
+          "filter(inplace=False):sample", "filter(inplace=False):observation", "Table(src.metadata())", "copy"]
+
+
+def derive(rng, src, how):
+    """a NEW table made from `src` the way library and user code do it; `src` stays live"""
+    from biom import Table
+    kind, _, ax = how.partition(":")
+    if kind == "transpose":
+        return src.transpose()
+    if kind == "copy":
+        return src.copy()
+    if kind == "Table(src.metadata())":
+        return Table(src.matrix_data.copy(), src.ids(axis="observation"), src.ids(),
+                     src.metadata(axis="observation"), src.metadata(), type=src.type)
+    ids = list(src.ids(axis=ax))
+    if kind == "sort_order":
+        rng.shuffle(ids)
+        return src.sort_order(ids, axis=ax)
+    if kind == "sort":
+        return src.sort(axis=ax)
+    if kind == "filter(inplace=False)":
+        keep = set(rng.sample(ids, rng.randint(max(1, len(ids) - 1), len(ids)))) if ids else set()
+        return src.filter(keep, axis=ax, inplace=False)
+    raise ValueError(how)
+
+
+def gen_live(rng, src):
+    """tables that are alive together: the source, one or two tables derived from it (the second
+    possibly from the first).  Returns [(label, table)], index of the receiver of the update."""
+    live = [("source", src)]
+    h1 = rng.choice(DERIVE)
+    d1 = derive(rng, src, h1)
+    live.append(("derived:" + h1, d1))
+    if rng.random() < 0.4:
+        h2 = rng.choice(DERIVE)
+        base = rng.choice([0, 1])
+        live.append(("derived:%s of %s" % (h2, live[base][0]), derive(rng, live[base][1], h2)))
+    return live, rng.randrange(len(live))
+
+
+def snap_others(others):
+    return [{"how": lab, "before": tobs(o)} for lab, o in others]
+
+
+def finish_others(snaps, others):
+    for s_, (lab, o) in zip(snaps, others):
+        s_["after"] = tobs(o)
+    return snaps
+
+
 def gen_value(rng):
     c = rng.random()
     if c < 0.4:
@@ -169,9 +220,10 @@ def gen_mapping(rng, t, axis):
     return m, mode, overlap
 
 
-def check_add(ctx, t, m, axis, tags=()):
+def check_add(ctx, t, m, axis, tags=(), others=()):
     from biom.exception import UnknownAxisError  # noqa: F401
     before = tobs(t)
+    snaps = snap_others(others)
     mapping = [[i, canon_entry(e)] for i, e in m.items()]
     arg = copy.deepcopy(m)
     err = None
@@ -183,6 +235,8 @@ def check_add(ctx, t, m, axis, tags=()):
         err = core.err_name(e)
     after = tobs(t)
     case = {"op": "add", "table": before, "mapping": mapping, "axis": axis, "after": after, "error": err}
+    if others:
+        case["others"] = finish_others(snaps, others)
     overlap = sum(1 for i, _ in mapping if i in (before["samp"] if axis == "sample" else before["obs"]))
     ctx.case(case, nontrivial=(len(mapping) > 0))
     r = ctx.driver.ask(case)
@@ -196,8 +250,9 @@ def check_add(ctx, t, m, axis, tags=()):
     return r
 
 
-def check_del(ctx, t, keys, axis, tags=()):
+def check_del(ctx, t, keys, axis, tags=(), others=()):
     before = tobs(t)
+    snaps = snap_others(others)
     err = None
     try:
         if keys == "default":
@@ -211,6 +266,8 @@ def check_del(ctx, t, keys, axis, tags=()):
         kk = None if keys == "default" else keys
     after = tobs(t)
     case = {"op": "del", "table": before, "keys": kk, "axis": axis, "after": after, "error": err}
+    if others:
+        case["others"] = finish_others(snaps, others)
     ctx.case(case, nontrivial=(before["omd"] is not None or before["smd"] is not None))
     r = ctx.driver.ask(case)
     ctx.count("del:axis=%s,keys=%s" % (axis, "None" if kk is None else ("[]" if not kk else "some")))
@@ -584,11 +641,12 @@ def split_opt(s):
     return None if s is None else s.split(",")
 
 
-def check_cli_worker(ctx, t, files, opts, facts, tags=()):
+def check_cli_worker(ctx, t, files, opts, facts, tags=(), others=()):
     """_add_metadata in-process on file objects (what the command calls)"""
     from biom.cli.metadata_adder import _add_metadata
     import io
     before = tobs(t)
+    snaps = snap_others(others)
     err = None
     fobj = {ax: io.StringIO("".join(f["lines"])) for ax, f in files.items()}
     try:
@@ -601,6 +659,8 @@ def check_cli_worker(ctx, t, files, opts, facts, tags=()):
         err = "Other" if type(e).__name__ == "BiomParseException" else core.err_name(e)
     after = tobs(t)
     case = cli_request(before, files, opts, after, err)
+    if others:
+        case["others"] = finish_others(snaps, others)
     ctx.case(case, nontrivial=bool(files))
     r = ctx.driver.ask(case)
     ctx.count("cli-worker:guarded=%s,%s" % (r.get("guarded"), "error=" + err if err else "ok"))
@@ -728,7 +788,10 @@ def run(ctx):
     rng = ctx.rng
     os.makedirs(TMP, exist_ok=True)
     ctx.rule = ("tables from core.gen_spec through all construction routes and prior histories "
-                "(filter, in-place filter, sort_order, transpose, combinations); add: mappings over "
+                "(filter, in-place filter, sort_order, transpose, combinations); receivers that are alive together with "
+                "their source / tables derived without deep copy (sort, sort_order, transpose, filter(inplace=False), "
+                "Table(src.metadata()), copy; either side updated) with every other live table snapshotted "
+                "before and after (clause others-unchanged); add: mappings over "
                 "sub/supersets/disjoint sets of the axis IDs with overwriting and new keys, every axis spelling; "
                 "del: every subset of the keys present (+ absent keys, None, []) x sample/observation/whole/unknown; "
                 "parse: files generated from the row grammar (header, comments, blanks, short/long rows, quoted and "
@@ -748,15 +811,28 @@ def run(ctx):
             t, route, hist = gen_table(rng, quick)
             ctx.count("history=" + hist)
             ax = rng.choice(["sample", "observation"])
-            # add on a fresh copy
-            ta = t.copy() if rng.random() < 0.5 else t
+            # the receiver: the table itself, a deep copy, or one of several tables that are alive
+            # together (source + tables derived from it without a deep copy)
+            others = []
+            c = rng.random()
+            if c < 0.5:
+                live, ri = gen_live(rng, t)
+                ta = live[ri][1]
+                others = [lt for j, lt in enumerate(live) if j != ri]
+                ctx.count("live:receiver=%s" % live[ri][0].split(" of ")[0])
+                ax = rng.choice(["sample", "observation"])
+            elif c < 0.75:
+                ta = t.copy()
+                others = [("source (deep-copied from)", t)]
+            else:
+                ta = t
             m, mode, overlap = gen_mapping(rng, ta, ax)
             axis_arg = ax if rng.random() < 0.95 else rng.choice(["whole", "bogus", "Sample"])
-            check_add(ctx, ta, m, axis_arg, (route, hist))
+            check_add(ctx, ta, m, axis_arg, (route, hist), others)
             # a second update on the already updated table (history: add then add)
             if rng.random() < 0.4:
                 m2, _, _ = gen_mapping(rng, ta, ax)
-                check_add(ctx, ta, m2, ax, (route, hist, "add-after-add"))
+                check_add(ctx, ta, m2, ax, (route, hist, "add-after-add"), others)
             # del: all key subsets of the keys present on the table (small), each axis spelling
             keys_present = set()
             for a in ("sample", "observation"):
@@ -767,13 +843,29 @@ def run(ctx):
             pool = sorted(keys_present)[:3] + ["absent"]
             subsets = [list(c) for r in range(len(pool) + 1) for c in itertools.combinations(pool, r)]
             picks = subsets if not quick else rng.sample(subsets, min(3, len(subsets)))
+
+            def del_receiver():
+                """receiver of one deletion and the tables alive next to it"""
+                c = rng.random()
+                if c < 0.4:
+                    how = rng.choice(DERIVE)
+                    ctx.count("live:del on derived:" + how.split(":")[0])
+                    return derive(rng, ta, how), [("source", ta)] + list(others)
+                if c < 0.6:
+                    base = ta.copy()
+                    how = rng.choice(DERIVE)
+                    ctx.count("live:del on source of:" + how.split(":")[0])
+                    return base, [("derived:" + how, derive(rng, base, how))]
+                return ta.copy(), [("source (deep-copied from)", ta)]
             for ks in picks:
                 dax = rng.choice(["sample", "observation", "whole", "whole", "bogus"]) if quick else None
                 for a in ([dax] if dax else ["sample", "observation", "whole", "bogus"]):
-                    check_del(ctx, ta.copy(), ks, a, (route, hist))
+                    rcv, oth = del_receiver()
+                    check_del(ctx, rcv, ks, a, (route, hist), oth)
             if rng.random() < 0.3:
-                check_del(ctx, ta.copy(), rng.choice([None, "default"]),
-                          rng.choice(["sample", "observation", "whole", "bogus"]), (route, hist))
+                rcv, oth = del_receiver()
+                check_del(ctx, rcv, rng.choice([None, "default"]),
+                          rng.choice(["sample", "observation", "whole", "bogus"]), (route, hist), oth)
         run_parse_stream(ctx, 4000 if quick else 30000)
         run_raw_stream(ctx, 800 if quick else 5000)
         n_cli = 700 if quick else 2500
@@ -785,7 +877,14 @@ def run(ctx):
             else:
                 t, route, hist = gen_table(rng, True)
             files, opts, facts = gen_cli_case(rng, t, friendly=friendly)
-            check_cli_worker(ctx, t.copy(), files, opts, facts, (route, hist))
+            if rng.random() < 0.5:
+                how = rng.choice(DERIVE)
+                rcv = derive(rng, t, how)
+                if how.startswith("filter") or how == "transpose":
+                    rcv = derive(rng, t, "Table(src.metadata())")      # keep the IDs the files were written for
+                check_cli_worker(ctx, rcv, files, opts, facts, (route, hist), [("source", t)])
+            else:
+                check_cli_worker(ctx, t.copy(), files, opts, facts, (route, hist))
             if friendly or i % 3 == 0:
                 out_json = rng.random() < (0.2 if friendly else 0.7)
                 in_fmt = "json" if (rng.random() < 0.7 or not hdf5_faithful(t)) else "hdf5"
@@ -851,12 +950,19 @@ def replay(ctx, rec):
     """re-run the recorded input against the real code of the current tree"""
     case = rec["case"]
     op = case["op"]
+    def live_of(t):
+        # the recorded derivation cannot be inverted: keep every kind of derived table of the receiver alive
+        if not case.get("others"):
+            return []
+        return [("derived:" + how, derive(ctx.rng, t, how)) for how in DERIVE
+                if not how.startswith("filter")]
     if op == "add":
         t = table_from_obs(case["table"])
         m = {i: {k: unvtext(v) for k, v in e.items()} for i, e in case["mapping"]}
-        check_add(ctx, t, m, case["axis"], ("replay",))
+        check_add(ctx, t, m, case["axis"], ("replay",), live_of(t))
     elif op == "del":
-        check_del(ctx, table_from_obs(case["table"]), case["keys"], case["axis"], ("replay",))
+        t = table_from_obs(case["table"])
+        check_del(ctx, t, case["keys"], case["axis"], ("replay",), live_of(t))
     elif op == "parse":
         check_parse(ctx, case["file"].get("gram"), case["file"]["lines"], case["opts"], case["header"],
                     [tuple(p) for p in case["proc"]], "list", ("replay",))
@@ -871,6 +977,6 @@ def replay(ctx, rec):
             check_cli_command(ctx, t, files, case["opts"], set(), case.get("_out", "json") == "json", "json",
                               ("replay",))
         else:
-            check_cli_worker(ctx, t, files, case["opts"], set(), ("replay",))
+            check_cli_worker(ctx, t, files, case["opts"], set(), ("replay",), live_of(t))
     else:
         raise ValueError(op)
